@@ -99,7 +99,7 @@ Print Assumptions c04_model_trace_ok.
    (Conn/C04_Pred.v: every emitted ack_nr is the highest in-order sequence number received, never moves back)
    against every trace of the connection model (proofs in Conn/C04_Step.v, guard in Conn/C04_Guard.v) *)
 From Utp Require Import Wire.SeqNr Wire.Header Conn.Recovery Conn.Msg Conn.VSockRec Conn.VSock Conn.VSockRun Conn.VObs
-  Conn.C17_Proofs Conn.C04_Pred Conn.C04_Guard Conn.C04_Step.
+  Conn.C17_Proofs Conn.C04_Pred Conn.C04_Pred2 Conn.C04_Guard Conn.C04_Step Conn.C04_Consumed.
 
 (* c04_vsock_ack_ok AS WRITTEN IS FALSE of the model (two witnesses below).  Under the guard c04_peer_ok - the peer
    delivers at most WRAP_TOLERANCE packets that carry a sequence number, with 16-bit sequence numbers, and no
@@ -120,6 +120,15 @@ Theorem c04_vsock_ack_or_d22_trace :
   C10_Pred.vconfig_ok c = true -> vsock_new cci mk c = Some s0 ->
   c04_vsock_ack_or_d22 cfg (ftrace cci s0 ops) = true.
 Proof. intros CC cci. exact (C04_Step.c04_vsock_ack_or_d22_trace cci). Qed.
+
+(* the same for c04_consumed_honest_ok (Conn/C04_Pred2.v: after EVERY event the number the endpoint would
+   acknowledge is honest and has not moved back), under the same guard:
+   c04_consumed_honest_guarded cfg tr = if c04_peer_ok cfg tr then c04_consumed_honest_ok cfg tr else true *)
+Theorem c04_consumed_honest_guarded_trace :
+  forall CC (cci : cc_iface CC) mk c cfg (s0 : vsock CC) ops,
+  C10_Pred.vconfig_ok c = true -> vsock_new cci mk c = Some s0 ->
+  c04_consumed_honest_guarded cfg (ftrace cci s0 ops) = true.
+Proof. intros CC cci. exact (C04_Consumed.c04_consumed_honest_guarded_trace cci). Qed.
 
 Theorem c04_peer_ok_split :
   forall cfg tr, c04_peer_ok cfg tr = c04_tol_ok cfg tr && negb (c04_d22_class cfg tr).
@@ -151,6 +160,7 @@ Proof. exact C04_Step.c04_wrap_shape. Qed.
 
 Print Assumptions c04_vsock_ack_guarded_trace.
 Print Assumptions c04_vsock_ack_or_d22_trace.
+Print Assumptions c04_consumed_honest_guarded_trace.
 Print Assumptions c04_peer_ok_split.
 Print Assumptions c04_vsock_ack_ok_refuted_after_fin.
 Print Assumptions c04_after_fin_shape.
